@@ -98,6 +98,26 @@ def main(inp, outp):
             clause("A->B->A is the identity (1e-6 m, 1e-9 m/s)", dp <= 1e-6 and dv <= 1e-9, "frames/inverse",
                    f"{walk[0]}->{walk[-1]}->{walk[0]} at {dspec} [{job['eop']}]: off by {dp:.3g} m {dv:.3g} m/s", data)
             if len(walk) == 2:
+                # a state held in an element form keeps denoting the same cartesian state when its frame changes - the elements being
+                # re-expressed about the NEW frame's central body (keplerian where both centres carry a body, else spherical)
+                bodies = [getattr(getattr(f, "center", None), "body", None) for f in frames]
+                fo = "keplerian" if all(bd is not None for bd in bodies) else "spherical"
+                try:
+                    el = sv.copy(form=fo)
+                    moved = el.copy(frame=frames[1])
+                    m = np.asarray(moved.copy(form="cartesian"), float)
+                    inplace = sv.copy(form=fo)
+                    inplace.frame = frames[1]
+                    m2 = np.asarray(inplace.copy(form="cartesian"), float)
+                    sp, svl = max(np.linalg.norm(b[:3]), 1.0), max(np.linalg.norm(b[3:]), 1e-3)
+                    okf = moved.form.name == fo and inplace.form.name == fo and max(np.linalg.norm(m[:3] - b[:3]), np.linalg.norm(m2[:3] - b[:3])) <= 1e-8 * sp \
+                        and max(np.linalg.norm(m[3:] - b[3:]), np.linalg.norm(m2[3:] - b[3:])) <= 1e-8 * svl
+                    clause("a state in an element form converted to another frame (copy or in place) denotes the same cartesian state, in the same form", okf,
+                           "frames/form-carried", f"{walk} at {dspec}: {fo} state moved to {walk[1]}: off by {np.linalg.norm(m[:3] - b[:3]):.3g} m / "
+                           f"{np.linalg.norm(m2[:3] - b[:3]):.3g} m (in place), forms {moved.form.name} / {inplace.form.name}", data)
+                except Exception as e:
+                    clause("a state in an element form converted to another frame (copy or in place) denotes the same cartesian state, in the same form", False,
+                           "frames/form-carried", f"{walk} at {dspec}: {fo}: {type(e).__name__}: {e}", data)
                 same_centre = all(w not in ("Station", "LofN", "LofQ", "LofT", "Moon", "EML1", "EML4e") for w in walk)
                 if same_centre:
                     # position map = proper rotation: images of the basis vectors
